@@ -292,6 +292,12 @@ def main2(prop, cfg, tier, seed, scratch, instr_stats, replay_mode, t_start):
                         harness_errors.append("worker %d-%d died before its first run (exit %d):\n%s" % (lo, hi, p.returncode, tail))
                         continue
                     deaths += 1
+                    hung = p.returncode == 3 and any(r.get("type") == "violation" and r["replay"].get("class") == "hang" and r["replay"].get("index") == idx for r in recs)
+                    if hung:
+                        # the worker's own watchdog reported the run as a hang and stopped: resume after it
+                        if deaths <= 60 and idx + 1 < hi and time.time() < phase_deadline - 30:
+                            pending.append((idx + 1, hi))
+                        continue
                     is_race = race and p.returncode == 66
                     cls = "data-race" if is_race else "worker-died"
                     key = "race/" + race_key(tail) if is_race else "died/" + died_key(tail)
@@ -323,8 +329,14 @@ def main2(prop, cfg, tier, seed, scratch, instr_stats, replay_mode, t_start):
         else:
             ok = rec is not None and rec.get("class") == v["class"] and rec.get("key") == v["key"]
         if not ok:
-            harness_errors.append("violation %s/%s (index %s) did not reproduce in a fresh process (exit %s, got %s)" % (
-                v["class"], v["key"], v["index"], code, rec))
+            msg = "violation %s/%s (index %s) did not reproduce in a fresh process (exit %s, got %s)" % (v["class"], v["key"], v["index"], code, rec)
+            if v["class"] == "worker-died" and code == 0:
+                # a worker process that died once (e.g. killed for memory) but whose run replays
+                # cleanly is not a statement about the property and not a defect of the harness
+                # logic: recorded in evidence, does not fail the check
+                notes.append("unreproducible worker death: " + msg[:300])
+            else:
+                harness_errors.append(msg)
             continue
         confirmed.append((v, path))
 
